@@ -443,9 +443,17 @@ class SymStr(_str):
         return self._all(lambda c: z3.And(c >= 32, c < 127)) if self.chars else True
 
     def upper(self):
-        return mk(
-            [c.upper() if isinstance(c, _str) else z3.If(z3.And(c >= 97, c <= 122), c - 32, c) for c in self.chars]
-        )
+        out = []
+        for c in self.chars:
+            if isinstance(c, _str):
+                out.append(c.upper())
+                continue
+            nib = _NIBBLES.get(c.get_id())
+            if nib is not None:  # a hex digit rendered from a symbolic byte: re-render in upper case
+                out.append(_nibble_cell(nib[1], nib[2], True))
+            else:
+                out.append(z3.If(z3.And(c >= 97, c <= 122), c - 32, c))
+        return mk(out)
 
     def lower(self):
         return mk(
@@ -949,6 +957,15 @@ def sx_get(recv, args, kwargs):
 
 def sx_join(sep, it):
     items = list(it)
+    if isinstance(sep, (bytes, bytearray)):
+        if any(isinstance(i, SymBytes) for i in items):
+            out = SymBytes()
+            for k, i in enumerate(items):
+                if k:
+                    out.extend(list(sep))
+                out.extend(list(i))
+            return out
+        return sep.join(items)
     if not isinstance(sep, (SymStr, Tainted)) and not any(isinstance(i, (SymStr, Tainted)) for i in items):
         return sep.join(items)
     out = []
@@ -960,6 +977,37 @@ def sx_join(sep, it):
         if k:
             out += cells(sep)
         out += cells(i)
+    return mk(out)
+
+
+def sx_format(fmt, args, kwargs):
+    """``fmt.format(*args, **kwargs)`` with symbolic arguments (plain replacement fields only)"""
+    import string
+
+    if isinstance(fmt, SymStr):
+        return fmt.format(*args, **kwargs)
+    if not isinstance(fmt, _str) or not (any(isinstance(a, (SymStr, Tainted, SymBool, *NUMERIC)) for a in args) or any(isinstance(a, (SymStr, Tainted, SymBool, *NUMERIC)) for a in kwargs.values())):
+        return fmt.format(*args, **kwargs)
+    out, auto = [], 0
+    for lit, field, spec, conv in string.Formatter().parse(fmt):
+        out += list(lit)
+        if field is None:
+            continue
+        if field == "":
+            val = args[auto]
+            auto += 1
+        elif field.isdigit():
+            val = args[_int(field)]
+        elif field in kwargs:
+            val = kwargs[field]
+        else:
+            raise Unsupported(f"format field {field!r}")
+        if "{" in (spec or ""):
+            raise Unsupported("nested format spec")
+        r = sx_format_value(val, ord(conv) if conv else None, spec or "")
+        if isinstance(r, Tainted):
+            return r
+        out += cells(r)
     return mk(out)
 
 
@@ -1045,9 +1093,37 @@ def sx_chr(i):
     return chr(i)
 
 
+_NIBBLES: dict = {}  # z3 ast id of a hex-digit cell -> (cell, byte term, 'hi'|'lo', upper?) (keeps the cell alive)
+
+
+def _nibble_cell(byte, which, upper):
+    """the hex-digit cell of one nibble of a symbolic byte (registered so that fromhex can invert it structurally)"""
+    v = byte / 16 if which == "hi" else byte % 16
+    cell = z3.If(v < 10, v + 48, v + (55 if upper else 87))
+    _NIBBLES[cell.get_id()] = (cell, byte, which, upper)
+    return cell
+
+
 def sx_hex_bytes(s):
     """bytes.fromhex / bytearray.fromhex on a symbolic str -> SymBytes"""
     cs = cells(s)
+    if len(cs) % 2 == 0 and cs:
+        # fast path: every pair is a concrete hex pair or the (hi, lo) rendering of one symbolic byte
+        vals = []
+        for i in range(0, len(cs), 2):
+            a, b = cs[i], cs[i + 1]
+            if isinstance(a, _str) and isinstance(b, _str) and a in "0123456789abcdefABCDEF" and b in "0123456789abcdefABCDEF":
+                vals.append(_int(a + b, 16))
+                continue
+            if not isinstance(a, _str) and not isinstance(b, _str):
+                na, nb = _NIBBLES.get(a.get_id()), _NIBBLES.get(b.get_id())
+                if na is not None and nb is not None and na[2] == "hi" and nb[2] == "lo" and na[1].get_id() == nb[1].get_id():
+                    vals.append(SymInt(na[1]))
+                    continue
+            vals = None
+            break
+        if vals is not None:
+            return SymBytes(vals)
     # python skips ASCII whitespace between bytes; symbolic input: only plain hex supported
     if len(cs) % 2:
         if bool(sbool(z3.And([hexval(c)[0] for c in cs]))):
@@ -1092,12 +1168,29 @@ class SymBytes(list):
     def hex(self):
         out = []
         for b in self:
-            out += cells(format(b, "02x"))
+            if isinstance(b, SymInt):
+                e = z3.simplify(b.e)
+                if z3.is_int_value(e):
+                    out += list(format(e.as_long(), "02x"))
+                else:
+                    out += [_nibble_cell(e, "hi", False), _nibble_cell(e, "lo", False)]
+            else:
+                out += list(format(b, "02x"))
         return mk(out)
 
     def __getitem__(self, k):
         r = list.__getitem__(self, k)
         return SymBytes(r) if isinstance(k, slice) else r
+
+    def __add__(self, o):
+        if isinstance(o, (bytes, bytearray, list)):
+            return SymBytes(list(self) + list(o))
+        return NotImplemented
+
+    def __radd__(self, o):
+        if isinstance(o, (bytes, bytearray, list)):
+            return SymBytes(list(o) + list(self))
+        return NotImplemented
 
 
 class _BytesLikeMeta(type):
